@@ -537,6 +537,37 @@ def r17_6(prog, rep, rid="R17.6"):
         rep.ok(rid, key, f.loc(), "Easter Sunday of all 199 years 1901..2099 is the computus' day of the year")
 
 
+def r17_7(prog, rep, rid="R17.7"):
+    """shift() moves the day of a candidate (by the shift, by the snap of a weekend to Monday or Friday) and then carries what runs over
+    the ends of the month into the neighbouring month and year.  A (month, day) pair is packed into a result set only where the day is
+    known to lie in its month: `0 < day` and `day <= ndom(year, month)` hold on every path to the packing — a path that packs
+    without the carry (a short-cut for `0B`) produces dates like 2019-06-31 and 2022-13-01 for a weekend at the end of a month."""
+    f = prog.fn("shift", "evrrul.c")
+    cfg = f.cfg
+    mf = MustFacts(cfg)
+    n = 0
+    for b, i, x, line in cfg.all_elems():
+        if not isinstance(x, dict):
+            continue
+        for c in calls(x):
+            if c.get("fn") != "pack_cand" or len(c.get("a", ())) < 2:
+                continue
+            n += 1
+            d = lv(strip_casts(cfg.resolve(c["a"][1])))
+            facts = mf.at(b, i) or set()
+            lo = any(fa[0] in ("lt", "le") and fa[2] == d and fa[1].isdigit() and int(fa[1]) + (1 if fa[0] == "lt" else 0) >= 1 for fa in facts)
+            hi = any(fa[0] in ("lt", "le") and fa[1] == d and ("ndom" in fa[2] or "ndim" in fa[2] or "mdays" in fa[2]) for fa in facts)
+            key = "shift/day-in-its-month-where-it-is-packed#%d" % n
+            if lo and hi:
+                rep.ok(rid, key, f.loc(c.get("line", line)), "`0 < %s <= month length` holds on every path to the packing" % d)
+            else:
+                rep.fail(rid, key, f.loc(c.get("line", line)), "pack_cand(.., %s) is reached on a path on which %s has not been brought into its month (%s): "
+                         "a moved day that runs over the end of the month is packed as it is — `SHIFT=0B` on Sunday 2019-06-30 gives 2019-06-31, "
+                         "on Saturday 2022-12-31 month 13" % (d, d, "no lower bound" if not lo else "no upper bound against the month length"))
+    if n < 2:
+        rep.broken_("rule=%s expected the two packing sites of shift(), found %d" % (rid, n))
+
+
 def run(prog, rep, tier, snap):
     rep.rule("R17.1", "SHIFT bit layout: writer and all readers agree", 10)
     rep.call(r17_1, prog, rep)
@@ -548,6 +579,8 @@ def run(prog, rep, tier, snap):
     rep.call(r17_4, prog, rep)
     rep.rule("R17.5", "the yearly and monthly fillers start a period early for every shift that can move a date forward (value-fixed walk)", 2)
     rep.call(r17_5, prog, rep)
+    rep.rule("R17.7", "shift() packs a moved day only when it is known to lie in its month", 2)
+    rep.call(r17_7, prog, rep)
     rep.rule("R17.6", "Easter Sunday of every year 1901..2099 (value-fixed walk of the computus)", 1)
     rep.call(r17_6, prog, rep)
 READY = True
